@@ -459,6 +459,7 @@ func init() {
 		v := e.X(fv, rets[0].Results[0])
 		o.Site(rets[0], "version search predicate "+v)
 		o.Check(v == "(^recv[p0].version > ^p0)" || v == "(^p0 < ^recv[p0].version)", "fvgt-strict", "the version search must find entries strictly newer than the given version, predicate is "+v, rets[0])
+		lockBalanceRule(o, "am/silence")
 		o.Check(n >= 20, "few-accesses", "implausibly few index accesses found: "+itoa(n), nil)
 		o.MinSites(20)
 	})
